@@ -30,7 +30,14 @@ CONF_Q4 = [("isi", {"MRTS": 2 * U}), ("spike", {"RI": True}), ("sync", {"max_tau
 
 def intervals(k, tier):
     """all half-lattice sub-intervals [a,b], a<b (ends on and between breakpoints)"""
-    pts = [T0 + j * U / 2 for j in range(2 * k + 1)]
+    if k < 0:
+        G = pairs.near_grid(-k)
+        pts = []
+        for a, b in zip(G[:-1], G[1:]):
+            pts += [a, 0.5 * (a + b)]
+        pts.append(G[-1])
+    else:
+        pts = [T0 + j * U / 2 for j in range(2 * k + 1)]
     out = [(a, b) for i, a in enumerate(pts) for b in pts[i + 1:]]
     if tier == "some":
         n = len(pts) - 1
@@ -45,9 +52,11 @@ def plan(tier):
         specs = [(2, [("dense", 1, 3)], CONF_Q + CONF_AUTO, "all"),
                  (2, [("dense", 4, 5)], CONF_Q, "some"),
                  (3, [("dense", 1, 3)], CONF_Q + CONF_AUTO, "some"),
+                 (3, [("near", 2, 2)], CONF_Q[:6], "some"),
                  (4, [("dense", 1, 2)], CONF_Q4, "some")]
     else:
         specs = [(2, [("dense", 1, 6)], CONF_T, "all"), (3, [("dense", 1, 4)], CONF_T, "all"),
+                 (3, [("near", 2, 3)], CONF_Q[:6], "some"), (2, [("near", 2, 3)], CONF_Q, "all"),
                  (4, [("dense", 1, 3)], CONF_Q, "some")]
     tasks, descs = [], []
     for N, regimes, conf, ivm in specs:
@@ -128,7 +137,10 @@ def evaluate(r, trains, edges, name, kw, ivals, be, rank=(), indices=None):
                         "distance or profile average raised for an interval inside the recording",
                         rank)
             return
-        if not (abs(a - d) <= TOL):
+        # integrals over very short intervals (near-tie grids) are formed by cancellation:
+        # their absolute error ~1e-16 is divided by the interval length
+        tol = TOL if iv is None else TOL + 1e-13 / (iv[1] - iv[0])
+        if not (abs(a - d) <= tol):
             sub = "whole" if iv is None else "interval"
             r.violation(ID, "scalar_vs_profile", be,
                         "scalar_vs_profile/%s/%s/%s/%s" % (name, sub, be, cls),
